@@ -18,7 +18,8 @@
 (* was accepted (and, for the async sender, after a flush); send returns   *)
 (* Ok only then, and Err only after a failed pipe call; the sender is      *)
 (* poisoned exactly when a failure left a partial message in the sink, and *)
-(* a poisoned sender makes no further pipe call.                           *)
+(* a poisoned sender makes no further pipe call; a guard dropped without   *)
+(* send() costs no pipe call and leaves the window allocated.              *)
 (***************************************************************************)
 EXTENDS Catalog, FlatOps, Json, IOUtils
 
@@ -101,6 +102,12 @@ Step ==
             /\ ~fail /\ ~poisoned /\ pos = Len(msg) /\ msg # <<>> /\ we = 0
             /\ msg' = <<>> /\ pos' = 0 /\ retries' = 0
             /\ UNCHANGED <<ws, we, fail, flushed, poisoned>>
+       [] ev.t = "ret" /\ e.ev = "dropped" ->
+            \* IoSend!Abandon: the guard was dropped without send(); no pipe call was made for this message, the window
+            \* stays allocated (SendGuard has no Drop) and the sender is as healthy as before
+            /\ ~fail /\ ~poisoned /\ pos = 0 /\ msg # <<>> /\ ws = 0 /\ we = Cap
+            /\ msg' = <<>> /\ retries' = 0
+            /\ UNCHANGED <<ws, we, pos, fail, flushed, poisoned>>
        [] ev.t = "ret" /\ e.ev = "err" ->
             /\ fail /\ (poisoned <=> pos > 0)
             /\ msg' = <<>> /\ pos' = 0 /\ fail' = FALSE /\ retries' = 0
